@@ -29,7 +29,7 @@ ASSUMPTIONS = [
     "a negative interval -n fires exactly once, after step n, if the run reaches step n",
     "srun exists on the Monte Carlo drivers only; force-bias drivers are driven through run and irun",
 ]
-REQUIRED = {"splits_checked": 300, "zero_length_pieces": 100, "observer_logs_checked": 1000, "negative_interval_logs": 200, "header_checks": 300, "step_invocations_counted": 1000}
+REQUIRED = {"splits_checked": 300, "zero_length_pieces": 100, "observer_logs_checked": 800, "negative_interval_logs": 200, "header_checks": 300, "step_invocations_counted": 1000}
 SHARD_TIMEOUT = {"quick": 900, "thorough": 3000}
 
 STEP_COUNT = {"n": 0}
@@ -93,7 +93,10 @@ def install_step_counter():
         cls.step = step
 
 
-def execute(w, seed, pieces, entries, log_interval):
+OBS_SETS = [(1, 2, 3, 7, -1, -2, -3, -7), (2, 3), (3, -4), (4, 6, -5), (2, 7, -3), (5,), (-2,), (3, 5, -7), (2, 4, -6), (6, -1)]
+
+
+def execute(w, seed, pieces, entries, log_interval, obs_set=OBS_SETS[0], default_observers=True):
     from quansino.io.core import Observer
 
     from qv import sims
@@ -114,13 +117,15 @@ def execute(w, seed, pieces, entries, log_interval):
             pass
 
     log, traj, rst = io.StringIO(), io.StringIO(), io.StringIO()
-    kw = {"logfile": log, "trajectory": traj, "logging_interval": log_interval}
+    kw = {"logging_interval": log_interval}
     is_mc = w["driver"] not in ("ForceBias", "AdaptiveForceBias")
-    if is_mc:
-        kw["restart_file"] = rst
+    if default_observers:
+        kw.update({"logfile": log, "trajectory": traj})
+        if is_mc:
+            kw["restart_file"] = rst
     mc, _ = sims.build({**w, "seed": seed}, **kw)
     obs = {}
-    for iv in (1, 2, 3, 7, -1, -2, -3, -7):
+    for iv in obs_set:
         o = RecObs(mc, iv)
         mc.file_manager.attach_observer(f"rec{iv}", o)
         obs[iv] = o
@@ -160,14 +165,22 @@ def run(spec):
     w = workloads()[spec["driver"]]
     n, li = spec["n"], spec["log_interval"]
     seed = derive_seed("c15", spec["seed"], spec["driver"])
-    ref = execute(w, seed, (n,), ("run",), li)
+    refs = {}
     comps = compositions(n, 4)
     entries_all = ["run", "srun", "irun"]
     for ci, parts in enumerate(comps):
         entries = tuple(entries_all[(ci + j) % 3] for j in range(len(parts)))
-        wit = {"driver": spec["driver"], "n": n, "pieces": list(parts), "entry_points": list(entries), "logging_interval": li}
+        # which user observers are attached varies from execution to execution (several observers with unrelated
+        # intervals, with and without the package's own default observers at the logging interval)
+        obs_set = OBS_SETS[ci % len(OBS_SETS)]
+        defaults = (ci // len(OBS_SETS)) % 3 != 2
+        rk = (obs_set, defaults)
+        if rk not in refs:
+            refs[rk] = execute(w, seed, (n,), ("run",), li, obs_set, defaults)
+        ref = refs[rk]
+        wit = {"driver": spec["driver"], "n": n, "pieces": list(parts), "entry_points": list(entries), "logging_interval": li, "observer_intervals": list(obs_set), "default_observers": defaults}
         try:
-            got = execute(w, seed, parts, entries, li)
+            got = execute(w, seed, parts, entries, li, obs_set, defaults)
         except Exception as ex:  # noqa: BLE001
             rec.viol(f"C15/raised/{type(ex).__name__}", f"split run raised {type(ex).__name__}: {ex}", wit)
             continue
@@ -189,13 +202,16 @@ def run(spec):
                 rec.viol(f"C15/observer-schedule/{sign}-interval/{shape}", f"observer with interval {iv} was called at steps {calls}, expected {exp}", {**wit, "interval": iv, "calls": calls, "expected": exp})
         # 2. header once, first; one row per scheduled call
         lines = got["log"].splitlines()
+        if not defaults:
+            lines = None
         rec.count("header_checks")
-        hdr = [i for i, ln in enumerate(lines) if "Step" in ln and "Epot" in ln]
-        if hdr != [0]:
-            rec.viol(f"C15/header/{shape}", f"log header appears at lines {hdr} (expected exactly once, first)", {**wit, "log_head": lines[:4]})
-        rows = len(lines) - len(hdr)
-        if rows != len(expected_calls(li, n)):
-            rec.viol(f"C15/log-rows/{shape}", f"log has {rows} rows for {len(expected_calls(li, n))} scheduled logger calls", wit)
+        if lines is not None:
+            hdr = [i for i, ln in enumerate(lines) if "Step" in ln and "Epot" in ln]
+            if hdr != [0]:
+                rec.viol(f"C15/header/{shape}", f"log header appears at lines {hdr} (expected exactly once, first)", {**wit, "log_head": lines[:4]})
+            rows = len(lines) - len(hdr)
+            if rows != len(expected_calls(li, n)):
+                rec.viol(f"C15/log-rows/{shape}", f"log has {rows} rows for {len(expected_calls(li, n))} scheduled logger calls", wit)
         # 3. exactly the requested number of steps
         rec.count("step_invocations_counted", got["steps_invoked"])
         if got["steps_invoked"] != n or got["step_count"] != n or got["yielded"] != n:
@@ -205,5 +221,5 @@ def run(spec):
             if got[f] != ref[f]:
                 rec.viol(f"C15/split-differs/{f}/{shape}", f"{f} after the split run differs from a single run({n})", {**wit, "entry_points": list(entries)})
                 break
-        rec.sample({**wit, "observer_calls_interval_3": got["calls"][3], "observer_calls_interval_-3": got["calls"][-3]}, cap=2)
+        rec.sample({**wit, "observer_calls": {str(k): v for k, v in got["calls"].items()}}, cap=2)
     return rec.out()
